@@ -7,6 +7,15 @@ THEOREMS = [
     "GitAi.Tracker.no_panic",
     "GitAi.Tracker.witness_bad_insertion_index",
     "GitAi.Tracker.in_bounds",
+    "GitAi.Tracker.on_boundaries",
+    "GitAi.Tracker.witness_target_off_boundary",
+    "GitAi.Tracker.unchanged_keeps_author_multiset",
+    "GitAi.Tracker.unchanged_keeps_author",
+    "GitAi.Tracker.witness_src_outside_deletion",
+    "GitAi.Tracker.new_text_is_reporters",
+    "GitAi.Tracker.witness_whitespace_inherits",
+    "GitAi.Tracker.whitespace_reformat_keeps_lines_partial",
+    "GitAi.Tracker.witness_reformat_split_line",
     "GitAi.Tracker.line_char_roundtrip",
     "GitAi.Tracker.witness_roundtrip_human",
     "GitAi.Tracker.witness_roundtrip_overlap",
